@@ -117,7 +117,12 @@ def build_repo_bins():
     """builds adf-bdd and adf-bdd-server from /repo's current working tree into /verif/build"""
     with Lock("cargo"):
         tdir = os.path.join(TARGET, "repo")
-        rc, out, err = run(["cargo", "build", "--offline", "-p", "adf-bdd-bin", "-p", "adf-bdd-server"],
+        # dev profile (quick rebuilds), but the library and the CLI themselves optimised: a 1024-model run of
+        # the unoptimised CLI takes 18 s, too close to the per-request watchdog on a loaded machine
+        rc, out, err = run(["cargo", "build", "--offline", "-p", "adf-bdd-bin", "-p", "adf-bdd-server",
+                            "--config", "profile.dev.package.adf_bdd.opt-level=2",
+                            "--config", "profile.dev.package.adf-bdd-bin.opt-level=2",
+                            "--config", 'profile.dev.package."*".opt-level=2'],
                            cwd=REPO, env={"CARGO_TARGET_DIR": tdir}, timeout=7200)
         if rc != 0:
             return False, err[-4000:]
